@@ -18,7 +18,9 @@ VARIABLES l, k       \* package index, test index
 
 Expected(r, t) == Run(r.prog, t.body)
 
-ObsAgrees(o, x) == o.logs = x.logs /\ o.out = x.out /\ o.code = x.code
+\* observations of a script's `main` also carry the encoded return value
+ObsAgrees(o, x) == /\ o.logs = x.logs /\ o.out = x.out /\ o.code = x.code
+                   /\ ("ret" \in DOMAIN o /\ x.out = "return") => o.ret = x.ret
 
 TestAccepted(r, t) ==
     LET x == Expected(r, t) IN \A i \in DOMAIN t.obs : ObsAgrees(t.obs[i], x)
